@@ -229,19 +229,19 @@ impl Isa for ToyIsa {
     fn registers(&self) -> Vec<(String, usize)> { (0..8).map(|r| (reg(r), 32)).collect() }
 }
 
-/// toy interpreter: the sequence of IL-instruction addresses an execution visits, and the final registers
-fn toy_interp(p: &Prog, fa: u64, regs0: &[u32; 8], limit: usize) -> (Vec<u64>, [u32; 8]) {
+/// toy interpreter: the sequence of (IL-instruction address, registers before it) an execution visits
+fn toy_interp(p: &Prog, fa: u64, regs0: &[u32; 8], limit: usize) -> Vec<(u64, [u32; 8])> {
     let mut regs = *regs0;
     let mut pc = fa;
     let mut seq = vec![];
     while seq.len() < limit {
         let b = match p.get(pc, 4) { Some(b) => b, None => break };
         let i = Toy::decode(b).unwrap();
-        seq.push(pc);
+        seq.push((pc, regs));
         match i {
             Toy::Add(r, imm) => { regs[r as usize] = regs[r as usize].wrapping_add(imm as u32); pc += 4; }
             Toy::Cadd(r, imm) => {
-                if regs[7] == 0 { seq.push(pc); regs[r as usize] = regs[r as usize].wrapping_add(imm as u32); }
+                if regs[7] == 0 { seq.push((pc, regs)); regs[r as usize] = regs[r as usize].wrapping_add(imm as u32); }
                 pc += 4;
             }
             Toy::Jmp(d) => pc = Toy::target(pc, d),
@@ -254,12 +254,12 @@ fn toy_interp(p: &Prog, fa: u64, regs0: &[u32; 8], limit: usize) -> (Vec<u64>, [
         }
     }
     seq.truncate(limit);
-    (seq, regs)
+    seq
 }
 
 /// executor::Driver over the recovered function: addresses of the IL instructions executed, final registers.
 /// Stops at a Branch operation (not executed), at `limit` instructions, or at the first error.
-fn driver_trace(f: &il::Function, regs0: &[u32; 8], limit: usize) -> Option<(Vec<u64>, [u32; 8])> {
+fn driver_trace(f: &il::Function, regs0: &[u32; 8], limit: usize) -> Option<Vec<(u64, [u32; 8])>> {
     observe_plain(|| {
         let mut program = il::Program::new();
         program.add_function(f.clone());
@@ -278,22 +278,21 @@ fn driver_trace(f: &il::Function, regs0: &[u32; 8], limit: usize) -> Option<(Vec
             let mut stop = false;
             if let Ok(loc) = d.location().apply(d.program()) {
                 if let Some(i) = loc.instruction() {
-                    seq.push(i.address().unwrap_or(u64::MAX));
+                    let mut regs = [0u32; 8];
+                    for r in 0..8 {
+                        regs[r] = d.state().get_scalar(&reg(r as u8)).and_then(|c| c.value_u64()).unwrap_or(0) as u32;
+                    }
+                    seq.push((i.address().unwrap_or(u64::MAX), regs));
                     if matches!(i.operation(), il::Operation::Branch { .. }) { stop = true; }
                 }
             }
             if stop { break; }
-            let saved = d.state().clone();
             match d.clone().step() {
                 Ok(n) => d = n,
-                Err(_) => { let _ = saved; break; }
+                Err(_) => break,
             }
         }
-        let mut regs = [0u32; 8];
-        for r in 0..8 {
-            regs[r] = d.state().get_scalar(&reg(r as u8)).and_then(|c| c.value_u64()).unwrap_or(0) as u32;
-        }
-        (seq, regs)
+        seq
     })
 }
 
@@ -366,7 +365,7 @@ fn gen_toy(r: &mut Rng) -> Gen {
         let last = i == n - 1;
         let x = if r.below(100) < ctl || (last && r.chance(7, 10)) {
             let tgt = |r: &mut Rng, same: &mut bool| -> i16 {
-                let t = match r.below(24) { 0 => { *same = true; i + 1 } 1 => i, 2 => n, _ => r.below(n as u64) as i64 };
+                let t = match r.below(40) { 0 => { *same = true; i + 1 } 1 => i, 2 => n, _ => r.below(n as u64) as i64 };
                 (t - i) as i16
             };
             match r.below(20) {
@@ -406,11 +405,227 @@ fn gen_toy(r: &mut Rng) -> Gen {
         }
         tags.push("has:manual".into());
     }
-    if same_target { tags.push("has:jcc-to-next".into()); }
+    let _ = same_target;
+    if ins.iter().any(|i| matches!(i, Toy::Jcc(_, _, 1))) { tags.push("has:jcc-to-next".into()); }
     let descr = format!("toy base={:#x} entry={:#x} prog=[{}] holes={:?} manual={:?}", base, fa,
         ins.iter().enumerate().map(|(i, x)| format!("{:#x}:{:?}", base + 4 * i as u64, x)).collect::<Vec<_>>().join(" "),
         (0..n as usize).filter(|i| !mapped[4 * i]).map(|i| base + 4 * i as u64).collect::<Vec<_>>(),
         manual.iter().map(|m| format!("{:#x}->{:#x}{}", m.0, m.1, if m.2.is_some() { "?" } else { "" })).collect::<Vec<_>>());
+    Gen { prog: Prog { base, bytes, mapped }, fa, manual, tags, descr }
+}
+
+// ------------------------------------------------------------------------------------------ real ISAs
+/// abstract instruction of the retargeted generator; targets are unit indices
+#[derive(Clone, Copy, Debug, PartialEq)]
+enum AIns {
+    Plain(u8),       // variant
+    Jmp(u8, usize),  // variant, target unit
+    Jcc(u8, usize),  // variant, target unit
+    Stop,
+}
+fn be32(w: u32) -> [u8; 4] { w.to_be_bytes() }
+fn rd_be32(b: &[u8]) -> u32 { u32::from_be_bytes([b[0], b[1], b[2], b[3]]) }
+
+struct MipsIsa { tr: falcon::translator::mips::Mips }
+impl MipsIsa {
+    fn plain(v: u8) -> u32 {
+        match v % 4 {
+            0 => 0,                                                  // nop
+            k => (0x09 << 26) | ((8 + k as u32) << 21) | ((8 + k as u32) << 16) | (k as u32), // addiu $t(k), $t(k), k
+        }
+    }
+    fn size(i: AIns) -> usize { if matches!(i, AIns::Plain(_)) { 4 } else { 8 } }
+    fn encode(i: AIns, a: u64, addr_of: &dyn Fn(usize) -> u64, slot: u8) -> Vec<u8> {
+        let off = |t: u64| -> u32 { (((t as i64 - (a as i64 + 4)) >> 2) as i32 as u32) & 0xffff };
+        let mut v = vec![];
+        match i {
+            AIns::Plain(k) => v.extend(be32(Self::plain(k))),
+            AIns::Jmp(k, t) => {
+                let t = addr_of(t);
+                let w = if k % 2 == 0 { 0x1000_0000 | off(t) } else { (0x02 << 26) | (((t >> 2) as u32) & 0x03ff_ffff) };
+                v.extend(be32(w)); v.extend(be32(Self::plain(slot)));
+            }
+            AIns::Jcc(k, t) => {
+                let t = addr_of(t);
+                let w = match k % 3 {
+                    0 => (0x04 << 26) | (8 << 21) | (9 << 16) | off(t),   // beq $t0, $t1
+                    1 => (0x05 << 26) | (8 << 21) | (9 << 16) | off(t),   // bne $t0, $t1
+                    _ => (0x04 << 26) | (10 << 21) | off(t),              // beqz $t2
+                };
+                v.extend(be32(w)); v.extend(be32(Self::plain(slot)));
+            }
+            AIns::Stop => { v.extend(be32(0x03e0_0008)); v.extend(be32(Self::plain(slot))); } // jr $ra
+        }
+        v
+    }
+}
+impl Isa for MipsIsa {
+    fn name(&self) -> &'static str { "mips" }
+    fn endian(&self) -> Endian { Endian::Big }
+    fn translator(&self) -> &dyn Translator { &self.tr }
+    fn decode(&self, p: &Prog, a: u64) -> Option<Unit> {
+        let w = rd_be32(p.get(a, 4)?);
+        let op = w >> 26;
+        let simm = ((w & 0xffff) as u16 as i16 as i64) << 2;
+        let rel = (a as i64 + 4 + simm) as u64;
+        if w == 0 || op == 0x09 {
+            return Some(Unit { len: 4, plain: true, succ: vec![a + 4] });
+        }
+        p.get(a, 8)?; // branch and delay slot are one unit
+        match op {
+            0x04 | 0x05 => {
+                let (rs, rt) = ((w >> 21) & 31, (w >> 16) & 31);
+                if op == 0x04 && rs == 0 && rt == 0 { Some(Unit { len: 8, plain: false, succ: vec![rel] }) }
+                else { Some(Unit { len: 8, plain: false, succ: vec![rel, a + 8] }) }
+            }
+            0x02 => Some(Unit { len: 8, plain: false, succ: vec![((a + 4) & 0xf000_0000) | (((w & 0x03ff_ffff) as u64) << 2)] }),
+            _ if w == 0x03e0_0008 => Some(Unit { len: 8, plain: false, succ: vec![] }),
+            _ => panic!("harness: unexpected MIPS word {:#x}", w),
+        }
+    }
+    fn registers(&self) -> Vec<(String, usize)> {
+        ["$t0", "$t1", "$t2", "$t3", "$ra"].iter().map(|n| (n.to_string(), 32)).collect()
+    }
+}
+
+struct X86Isa { tr: falcon::translator::x86::X86 }
+impl X86Isa {
+    fn plain(v: u8) -> Vec<u8> {
+        match v % 6 {
+            0 => vec![0x90],                         // nop
+            1 => vec![0x83, 0xc0, 0x01],             // add eax, 1
+            2 => vec![0x83, 0xc3, 0xff],             // add ebx, -1
+            3 => vec![0xb8, 0x00, 0x00, 0x00, 0x00], // mov eax, 0
+            4 => vec![0x83, 0xc1, 0x02],             // add ecx, 2
+            _ => vec![0x90],
+        }
+    }
+    fn size(i: AIns) -> usize {
+        match i { AIns::Plain(v) => Self::plain(v).len(), AIns::Jmp(..) | AIns::Jcc(..) => 2, AIns::Stop => 1 }
+    }
+    fn encode(i: AIns, a: u64, addr_of: &dyn Fn(usize) -> u64) -> Vec<u8> {
+        let rel = |t: u64| -> u8 { (t as i64 - (a as i64 + 2)) as i8 as u8 };
+        match i {
+            AIns::Plain(v) => Self::plain(v),
+            AIns::Jmp(_, t) => vec![0xeb, rel(addr_of(t))],
+            AIns::Jcc(k, t) => vec![[0x74u8, 0x75, 0x72, 0x7c][(k % 4) as usize], rel(addr_of(t))],
+            AIns::Stop => vec![0xf4],
+        }
+    }
+}
+impl Isa for X86Isa {
+    fn name(&self) -> &'static str { "x86" }
+    fn endian(&self) -> Endian { Endian::Little }
+    fn translator(&self) -> &dyn Translator { &self.tr }
+    fn decode(&self, p: &Prog, a: u64) -> Option<Unit> {
+        let b0 = p.get(a, 1)?[0];
+        let len = match b0 { 0x90 | 0xf4 => 1, 0x83 => 3, 0xb8 => 5, 0xeb | 0x74 | 0x75 | 0x72 | 0x7c => 2, _ => panic!("harness: unexpected x86 byte {:#x}", b0) };
+        let b = p.get(a, len)?;
+        let t = || (a as i64 + 2 + b[1] as i8 as i64) as u64;
+        Some(match b0 {
+            0xf4 => Unit { len: 1, plain: false, succ: vec![] },
+            0xeb => Unit { len: 2, plain: false, succ: vec![t()] },
+            0x74 | 0x75 | 0x72 | 0x7c => Unit { len: 2, plain: false, succ: vec![a + 2, t()] },
+            _ => Unit { len: len as u64, plain: true, succ: vec![a + len as u64] },
+        })
+    }
+    fn registers(&self) -> Vec<(String, usize)> {
+        let mut v: Vec<(String, usize)> = ["eax", "ebx", "ecx"].iter().map(|n| (n.to_string(), 32)).collect();
+        v.extend(["ZF", "CF", "SF", "OF"].iter().map(|n| (n.to_string(), 1)));
+        v
+    }
+}
+
+/// random program over the abstract instructions, laid out and encoded for MIPS (`mips`) or x86
+fn gen_real(r: &mut Rng, mips: bool, fixed: Option<(u64, Vec<AIns>, usize)>) -> Gen {
+    let is_fixed = fixed.is_some();
+    let (base, mut ins, fa_idx) = match fixed {
+        Some(f) => f,
+        None => {
+            let n = if r.chance(1, 6) { r.range(2, 10) } else { r.range(17, 40) } as usize;
+            let base = if mips { 0x1000 + 4 * r.below(16) } else { 0x1000 + r.below(64) };
+            let ctl = *r.pick(&[4u64, 10, 25]);
+            let mut ins = vec![];
+            for i in 0..n {
+                let last = i == n - 1;
+                let tgt = |r: &mut Rng| -> usize { match r.below(30) { 0 => (i + 1).min(n - 1), 1 => i, _ => r.below(n as u64) as usize } };
+                let x = if last { if r.chance(1, 2) { AIns::Stop } else { AIns::Jmp(r.below(4) as u8, tgt(r)) } }
+                else if r.below(100) < ctl {
+                    match r.below(10) { 0..=5 => AIns::Jcc(r.below(12) as u8, tgt(r)), 6..=8 => AIns::Jmp(r.below(4) as u8, tgt(r)), _ => AIns::Stop }
+                } else { AIns::Plain(r.below(12) as u8) };
+                ins.push(x);
+            }
+            let fa_idx = if r.chance(2, 3) { 0 } else { r.below(n as u64) as usize };
+            (base, ins, fa_idx)
+        }
+    };
+    let n = ins.len();
+    let size = |i: AIns| if mips { MipsIsa::size(i) } else { X86Isa::size(i) };
+    let mut offs = vec![0u64; n + 1];
+    for i in 0..n { offs[i + 1] = offs[i] + size(ins[i]) as u64; }
+    // x86: rel8 must reach; retarget to the unit nearest to the jump that is in range
+    if !mips {
+        for i in 0..n {
+            let t = match ins[i] { AIns::Jmp(_, t) | AIns::Jcc(_, t) => t, _ => continue };
+            let from = offs[i] as i64 + 2;
+            let ok = |t: usize| { let d = offs[t] as i64 - from; (-128..=127).contains(&d) };
+            if !ok(t) {
+                let mut t2 = t;
+                while !ok(t2) { if t2 > i { t2 -= 1 } else { t2 += 1 } }
+                ins[i] = match ins[i] { AIns::Jmp(k, _) => AIns::Jmp(k, t2), AIns::Jcc(k, _) => AIns::Jcc(k, t2), x => x };
+            }
+        }
+    }
+    // MIPS only: with a small probability a jump targets the DELAY SLOT of another branch (index + 1000)
+    if mips && !is_fixed {
+        let units: Vec<usize> = (0..n).filter(|i| !matches!(ins[*i], AIns::Plain(_))).collect();
+        for i in 0..n {
+            if !units.is_empty() && r.chance(1, 14) {
+                let u = *r.pick(&units) + 1000;
+                ins[i] = match ins[i] { AIns::Jmp(k, _) => AIns::Jmp(k & !1, u), AIns::Jcc(k, _) => AIns::Jcc(k, u), x => x };
+            }
+        }
+    }
+    let addr_of = |t: usize| if t >= 1000 { base + offs[t - 1000] + 4 } else { base + offs[t] };
+    let mut bytes = vec![];
+    for i in 0..n {
+        let slot = r.below(4) as u8;
+        let e = if mips { MipsIsa::encode(ins[i], addr_of(i), &addr_of, slot) } else { X86Isa::encode(ins[i], addr_of(i), &addr_of) };
+        assert_eq!(e.len(), size(ins[i]));
+        bytes.extend(e);
+    }
+    let mut mapped = vec![true; bytes.len()];
+    let mut tags = vec![format!("isa:{}", if mips { "mips" } else { "x86" }), format!("align:{}", if mips { (base % 64) / 4 } else { base % 64 }),
+                        format!("n:{}", if n < 17 { "<17" } else if n <= 40 { "17-40" } else { ">40" })];
+    if is_fixed { tags.push("fixed:real".into()); }
+    let mut holes = vec![];
+    if !is_fixed && n > 4 && r.chance(1, 8) {
+        let i = r.range(1, n as u64 - 1) as usize;
+        let j = (i + r.range(1, 3) as usize).min(n);
+        for b in offs[i]..offs[j] { mapped[b as usize] = false; }
+        holes = (i..j).collect();
+        tags.push("has:hole".into());
+    }
+    let fa_idx = if holes.contains(&fa_idx) { 0 } else { fa_idx };
+    let fa = addr_of(fa_idx);
+    if fa_idx != 0 { tags.push("entry:inside".into()); }
+    let mut manual = vec![];
+    if !is_fixed && r.chance(1, 6) {
+        let ctls: Vec<usize> = (0..n).filter(|i| !matches!(ins[*i], AIns::Plain(_))).collect();
+        if !ctls.is_empty() {
+            let h = *r.pick(&ctls);
+            let t = r.below(n as u64) as usize;
+            manual.push((addr_of(h), addr_of(t), None));
+            tags.push("has:manual".into());
+        }
+    }
+    let same = (0..n).any(|i| matches!(ins[i], AIns::Jcc(_, t) if t == i + 1));
+    if same { tags.push("has:jcc-to-next".into()); }
+    let descr = format!("{} base={:#x} entry={:#x} prog=[{}] holes={:?} manual={:?} bytes={}", if mips { "mips" } else { "x86" }, base, fa,
+        ins.iter().enumerate().map(|(i, x)| format!("{:#x}:{:?}", addr_of(i), x)).collect::<Vec<_>>().join(" "),
+        holes.iter().map(|h| addr_of(*h)).collect::<Vec<_>>(),
+        manual.iter().map(|m: &(u64, u64, Option<Expression>)| format!("{:#x}->{:#x}", m.0, m.1)).collect::<Vec<_>>(),
+        bytes.iter().map(|b| format!("{:02x}", b)).collect::<String>());
     Gen { prog: Prog { base, bytes, mapped }, fa, manual, tags, descr }
 }
 
@@ -461,6 +676,11 @@ fn run_case(isa: &dyn Isa, g: Gen, r: &mut Rng, toy: bool) -> Case {
     for (h, _, _) in &manual {
         if run_len(*h) > 64 { tags.push("kf:manual-head-run-exceeds-window".into()); break; }
     }
+    // MIPS: a target that is the delay slot of a reachable branch (the slot's IL is then shared between the
+    // branch unit and the run that starts at the slot)
+    if isa.name() == "mips" && items.iter().any(|i| i.len == 8 && targets.contains(&(i.addr + 4))) {
+        tags.push("kf:mips-target-in-delay-slot".into());
+    }
     let holes = items.iter().filter(|i| i.len == 0).count();
     if holes > 0 { tags.push("has:unmapped-target".into()); }
 
@@ -486,7 +706,7 @@ fn run_case(isa: &dyn Isa, g: Gen, r: &mut Rng, toy: bool) -> Case {
             for rs in &regsets {
                 let want = toy_interp(&prog, fa, rs, 120);
                 match driver_trace(f, rs, 120) {
-                    Some(got) => { if got.0 != want.0 || (want.0.len() < 120 && got.1 != want.1) { drv_ok = false; } }
+                    Some(got) => { if got != want { drv_ok = false; } }
                     None => drv_ok = false,
                 }
             }
@@ -505,11 +725,73 @@ fn run_case(isa: &dyn Isa, g: Gen, r: &mut Rng, toy: bool) -> Case {
     Case { coq, descr: format!("{} [{}] -> {}", descr, isa.name(), obs.kind()), tags, nontrivial: blocks >= 3, key: format!("{:016x}", hsh) }
 }
 
+/// hand-written regression programs (indices 0..N_FIXED): the minimised forms of past failures and of the
+/// situations the property names
+const N_FIXED: u64 = 8;
+const N_FIXED_REAL: u64 = 8;
+fn fixed_toy(index: u64) -> Gen {
+    use Toy::*;
+    let (base, ins, fa_idx, holes, manual): (u64, Vec<Toy>, usize, Vec<usize>, Vec<(usize, usize, Option<Expression>)>) = match index {
+        // conditional jump whose target is its own fall-through (x86 `je +0`)
+        0 => (0x1000, vec![Jcc(0, 0, 1), Add(1, 1), Halt], 0, vec![], vec![]),
+        // one straight-line run of 84 bytes
+        1 => (0x1000, (0..20).map(|i| Add((i % 8) as u8, 1)).chain([Halt]).collect(), 0, vec![], vec![]),
+        // loop whose back edge enters the middle of the entry block
+        2 => (0x1008, vec![Add(0, 1), Add(1, 1), Add(2, 1), Add(0, 0xffff), Jcc(1, 0, -2), Halt], 0, vec![], vec![]),
+        // jump table: two guarded manual edges out of an indirect jump
+        3 => (0x1000, vec![Add(0, 1), Jr(1), Add(2, 1), Halt, Add(3, 1), Halt], 0, vec![],
+              vec![(1, 2, Some(toy_cond(0, 1))), (1, 4, Some(toy_cond(1, 1)))]),
+        // 19-instruction loop at alignment 13, entered in the middle, window ends inside it
+        4 => (0x1034, (0..18).map(|i| Add((i % 8) as u8, 2)).chain([Jmp(-18)]).collect(), 9, vec![], vec![]),
+        // branches into an unmapped hole and past the end
+        5 => (0x1000, vec![Jcc(2, 0, 3), Add(1, 1), Jmp(4), Add(2, 1), Add(2, 1), Halt], 0, vec![3, 4], vec![]),
+        // manual edge whose head starts a run longer than one window (known finding)
+        6 => (0x1000, (0..18).map(|i| Add((i % 8) as u8, 1)).chain([Halt, Add(0, 1), Halt]).collect(), 0, vec![], vec![(1, 19, None)]),
+        // the function is a jump to itself
+        _ => (0x1004, vec![Jmp(0)], 0, vec![], vec![]),
+    };
+    let bytes: Vec<u8> = ins.iter().flat_map(|i| i.encode()).collect();
+    let mut mapped = vec![true; bytes.len()];
+    for h in &holes { for b in 4 * h..4 * h + 4 { mapped[b] = false; } }
+    let at = |i: usize| base + 4 * i as u64;
+    let manual: Vec<(u64, u64, Option<Expression>)> = manual.into_iter().map(|(h, t, c)| (at(h), at(t), c)).collect();
+    let mut tags = vec!["isa:toy".to_string(), format!("fixed:{}", index)];
+    if !manual.is_empty() { tags.push("has:manual".into()); }
+    if !holes.is_empty() { tags.push("has:hole".into()); }
+    if ins.iter().any(|i| matches!(i, Toy::Jcc(_, _, 1))) { tags.push("has:jcc-to-next".into()); }
+    let descr = format!("toy(fixed {}) base={:#x} entry={:#x} prog=[{}] holes={:?} manual={:?}", index, base, at(fa_idx),
+        ins.iter().enumerate().map(|(i, x)| format!("{:#x}:{:?}", at(i), x)).collect::<Vec<_>>().join(" "),
+        holes.iter().map(|h| at(*h)).collect::<Vec<_>>(),
+        manual.iter().map(|m| format!("{:#x}->{:#x}{}", m.0, m.1, if m.2.is_some() { "?" } else { "" })).collect::<Vec<_>>());
+    Gen { prog: Prog { base, bytes, mapped }, fa: at(fa_idx), manual, tags, descr }
+}
+
 fn gen_case(seed: u64, index: u64) -> Case {
+    if index < N_FIXED {
+        let mut r = Rng::for_case(seed, index);
+        let isa = ToyIsa { tr: ToyTranslator };
+        return run_case(&isa, fixed_toy(index), &mut r, true);
+    }
+
     let mut r = Rng::for_case(seed, index);
-    let isa = ToyIsa { tr: ToyTranslator };
-    let g = gen_toy(&mut r);
-    run_case(&isa, g, &mut r, true)
+    if index < N_FIXED + N_FIXED_REAL {
+        use AIns::*;
+        let k = index - N_FIXED;
+        let mips = k % 2 == 0;
+        // a branch placed so that it (MIPS: its delay slot) straddles the end of the first 64-byte window
+        let lead = if mips { 14 + (k / 2) as usize } else { 20 + (k / 2) as usize };
+        let mut ins: Vec<AIns> = (0..lead).map(|i| Plain(if mips { 1 + (i % 3) as u8 } else { 1 })).collect();
+        let t = ins.len() + 2;
+        ins.extend([Jcc(0, t), Plain(1), Plain(2), Stop]);
+        let g = gen_real(&mut r, mips, Some((0x1000, ins, 0)));
+        return if mips { run_case(&MipsIsa { tr: falcon::translator::mips::Mips::new() }, g, &mut r, false) }
+               else { run_case(&X86Isa { tr: falcon::translator::x86::X86::new() }, g, &mut r, false) };
+    }
+    match index % 10 {
+        0 | 1 => { let g = gen_real(&mut r, true, None); run_case(&MipsIsa { tr: falcon::translator::mips::Mips::new() }, g, &mut r, false) }
+        2 | 3 => { let g = gen_real(&mut r, false, None); run_case(&X86Isa { tr: falcon::translator::x86::X86::new() }, g, &mut r, false) }
+        _ => { let isa = ToyIsa { tr: ToyTranslator }; let g = gen_toy(&mut r); run_case(&isa, g, &mut r, true) }
+    }
 }
 
 fn main() {
